@@ -69,6 +69,40 @@ let register (reg : string -> (Sx.t list -> Sx.t) -> unit) =
                         go f' r (o :: acc)) in
              L [put_int (List.length tr); L (go None tr []); L (closes isz ops)])
     | _ -> bad "c11_cuts");
+  (* (c11_ileave isz wops ((pg i1 i2) ...)): the reader as a sequence of reads over the changing file.  The distinct
+     consecutive files of the writer's trace are numbered 0, 1, ... (0 = created, empty); for each schedule the reader's
+     first read (pg bytes) is served from file i1 and its second read from file i2 >= i1
+     -> (number-of-files (result ...)) *)
+  reg "c11_ileave" (fun a -> match a with
+    | [isz; ops; scheds] ->
+        let isz = get_n isz in
+        let ops = get_list get_wop ops in
+        (match wrun isz ops with
+         | Err e -> L [A "err"; put_exn e]
+         | Ok (((_, _), _), tr) ->
+             let put_entries = put_list Cmds_c10.put_entry in
+             let rec go (f : fstate) es acc =
+               match es with
+               | [] -> List.rev acc
+               | e :: r ->
+                   (match apply_effects f [e] with
+                    | Err _ -> List.rev acc
+                    | Ok f' ->
+                        let acc = match f', acc with
+                          | Some b, last :: _ when b = last -> acc
+                          | Some b, _ -> b :: acc
+                          | None, _ -> acc in
+                        go f' r acc) in
+             let files = Array.of_list (go None tr []) in
+             let n = Array.length files in
+             let one = function
+               | L [pg; i1; i2] ->
+                   let pg = get_n pg and i1 = BZ.to_int (get_int i1) and i2 = BZ.to_int (get_int i2) in
+                   if i1 < 0 || i2 < i1 || i2 >= n then L [A "err"; A "range"]
+                   else put_res put_entries (read_all_from_file_il pg files.(i1) files.(i2))
+               | _ -> bad "c11_ileave schedule" in
+             L [put_int n; L (List.map one (match scheds with L l -> l | _ -> bad "c11_ileave schedules"))])
+    | _ -> bad "c11_ileave");
   (* (c11_vanish pg typ parts1): the collector's read of a listed file that has vanished -> ok | (err exn) *)
   reg "c11_vanish" (fun a -> match a with
     | [pg; typ; p1] ->
